@@ -85,9 +85,17 @@ func c03run(c GCase, memoExpr map[int]bool, memoNT []bool, plain bool) c03outcom
 func c03case(c GCase, r *rand.Rand, a *run.Acc) {
 	// memoization subset: any sub-expression, any nonterminal
 	var ids []int
+	rtrimOperand := map[int]bool{} // never memoized: RightTrim moves its operand's node in place (K1), a cached one would be shared
 	for _, b := range c.G.NTs {
 		gram.Walk(b, func(e *gram.Expr) {
-			if e.Op != gram.OpNT {
+			if e.Op == gram.OpRTrim {
+				rtrimOperand[e.Kids[0].ID] = true
+			}
+		})
+	}
+	for _, b := range c.G.NTs {
+		gram.Walk(b, func(e *gram.Expr) {
+			if e.Op != gram.OpNT && !rtrimOperand[e.ID] {
 				ids = append(ids, e.ID)
 			}
 		})
@@ -208,6 +216,9 @@ func c03plan(tier string, seed int64) []run.Job {
 		jobs = append(jobs, run.Job{Family: "random", Seed: seed*100000 + int64(i), N: per, P: map[string]int{"strat": 1, "lrfree": 1, "maxlen": 7, "inputs": 5}})
 		jobs = append(jobs, run.Job{Family: "sharing", Seed: seed*100000 + 60000 + int64(i), N: per * 8, P: map[string]int{"trims": 0}})
 		// LR-free grammars with LeftTrim wrappers (LeftTrim rewrites error positions and the context's error) and End leaves
+		// RightTrim around sequences (fresh nodes; K1 - RightTrim moving a SHARED node - stays outside this check, hence no
+		// extra Memoize wrappers around sub-expressions here: one could land on a RightTrim operand)
+		jobs = append(jobs, run.Job{Family: "random", Seed: seed*100000 + 75000 + int64(i), N: per / 2, P: map[string]int{"strat": 1, "lrfree": 1, "maxlen": 7, "inputs": 5, "trims": 1, "lefttrims": 1, "rtrimseqs": 1, "memoexpr": 0}})
 		jobs = append(jobs, run.Job{Family: "random", Seed: seed*100000 + 70000 + int64(i), N: per / 2, P: map[string]int{"strat": 1, "lrfree": 1, "maxlen": 7, "inputs": 5, "trims": 1, "lefttrims": 1, "ends": 1, "memoexpr": 0}})
 	}
 	jobs = append(jobs, enumJobs(4, true, 4, 300)...)
